@@ -13,6 +13,7 @@ def run(facts, tier):
         ("cache invalidation", Q.cache_invalidation, 9, "every public mutator invalidates the cached sorted view on every data-modifying path"),
         ("compaction triggers", Q.compaction_triggers, 2, "compaction triggers include the capacity boundary"),
         ("couplings", lambda fa: cowrite.obligations(fa, ['kll_sketch', 'req_sketch', 'quantiles_sketch']), 10, "fields that every mutator updates together (counters, extremes, cached values) are still updated together"),
+        ("tautologies", lambda fa: generic_lints.tautologies(fa, ('kll/', 'req/', 'quantiles/', 'common/')), 2, "no comparison / assignment / min-max with two identical operands, no if-else with identical arms"),
         ("duplicate operands", lambda fa: generic_lints.duplicate_conjuncts(fa, ('kll/', 'req/', 'quantiles/', 'common/')), 2, "no logical chain tests the same operand twice (copy-paste of the wrong peer)"),
         ("structural triggers", lambda fa: triggers.obligations(fa, ['kll_sketch', 'quantiles_sketch', 'req_compactor', 'req_sketch']), 15, "the comparisons that decide when to resize / rebuild / compact / purge / promote keep their reviewed boundary (operator and constants)"),
     ):
